@@ -46,7 +46,44 @@ HULLS = {
     (2, "wide"): [(0.0, 0.0), (8.0, 0.0), (8.0, 1.0), (0.0, 1.0), (4.0, 1.5)],
     (3, "tetra"): [(0.0, 0.0, 0.0), (1.0, 0.0, 0.0), (0.0, 1.0, 0.0), (0.0, 0.0, 1.0)],
     (3, "octa"): [(1.0, 0.0, 0.0), (-1.0, 0.0, 0.0), (0.0, 1.0, 0.0), (0.0, -1.0, 0.0), (0.0, 0.0, 1.0), (0.0, 0.0, -1.0)],
+    # hulls computed, as is usual, from a CLOUD: some points are no vertices of the hull (strictly
+    # interior, on an edge, on a face); the corners of the domain are the hull's vertices only
+    (2, "cloud_tri"): [(0.0, 0.0), (2.0, 0.0), (0.0, 2.0), (0.5, 0.5), (1.0, 0.0), (1.0, 1.0), (0.25, 1.0)],
+    (2, "cloud_penta"): [(0.0, 0.0), (2.0, 0.0), (3.0, 1.0), (1.0, 2.0), (-1.0, 1.0), (1.0, 1.0), (0.5, 0.25),
+                         (2.0, 1.0), (1.0, 0.0)],
+    (2, "cloud_quad"): [(0.0, 0.0), (4.0, 0.0), (4.0, 1.0), (0.0, 1.0), (1.0, 0.5), (3.0, 0.25), (2.0, 1.0)],
+    (3, "cloud_tetra"): [(0.0, 0.0, 0.0), (2.0, 0.0, 0.0), (0.0, 2.0, 0.0), (0.0, 0.0, 2.0), (0.5, 0.5, 0.5),
+                         (1.0, 0.0, 0.0), (0.5, 0.5, 0.0), (0.25, 0.25, 1.0)],
+    (3, "cloud_octa"): [(1.0, 0.0, 0.0), (-1.0, 0.0, 0.0), (0.0, 1.0, 0.0), (0.0, -1.0, 0.0), (0.0, 0.0, 1.0),
+                        (0.0, 0.0, -1.0), (0.0, 0.0, 0.0), (0.25, 0.25, 0.25), (0.5, 0.5, 0.0), (-0.25, 0.5, 0.25)],
 }
+
+_CORNERS = {}
+
+
+def hull_corners(cloud):
+    """the vertices of conv(cloud), from scratch and exact: a point is NO vertex iff it lies in a closed
+    non-degenerate simplex spanned by d+1 other points of the cloud (Caratheodory; a point on an edge or a
+    face lies on the boundary of such a simplex because the rest of the cloud is full-dimensional)"""
+    key = tuple(map(tuple, cloud))
+    if key not in _CORNERS:
+        P = [X.fr_point(p) for p in cloud]
+        d = len(P[0])
+        out = []
+        for i, p in enumerate(P):
+            others = [q for j, q in enumerate(P) if j != i]
+            inside = False
+            for comb in itertools.combinations(others, d + 1):
+                a = X.barycentric(p, list(comb))
+                if a is not None and all(x >= 0 for x in a) and sum(a) <= 1:
+                    inside = True
+                    break
+            if not inside:
+                out.append(tuple(float(x) for x in cloud[i]))
+        _CORNERS[key] = sorted(out)
+    return _CORNERS[key]
+
+
 RECTS = {
     2: [[(-1, 1), (-1, 1)], [(0, 1), (0, 1)], [(0, 4), (-1, 1)], [(-2.0, 0.5), (10, 12)]],
     3: [[(-1, 1), (-1, 1), (-1, 1)], [(0, 1), (0, 2), (0, 1)]],
@@ -121,7 +158,11 @@ class Oracle:
         self.multipliers = [1]
         self.born = {}                # simplex -> index into multipliers at creation
         self.extent = [float(b[1] - b[0]) for b in learner._bbox]
-        self.corners = [tup(p) for p in learner._bounds_points]
+        # the corners of the domain, independently of the learner: the box corners / the hull's vertices
+        if cfg["domain"] == "rect":
+            self.corners = sorted(tuple(float(x) for x in c) for c in itertools.product(*[tuple(b) for b in cfg["bounds"]]))
+        else:
+            self.corners = hull_corners(HULLS[(cfg["dim"], cfg["bounds"])])
         if cfg["domain"] == "hull":
             import scipy.spatial
             self.hull_eq = scipy.spatial.ConvexHull(np.array(HULLS[(cfg["dim"], cfg["bounds"])], dtype=float)).equations
@@ -323,6 +364,8 @@ def drive(cfg, hist=None, rng=None, concrete=None, hooks=None):
     concrete ops: ["ask", n] | ["tell", point] | ["tell_pending", point] | ["remove_unfinished"]"""
     l, f, lossfn = make_learner(cfg)
     orc = Oracle(l, cfg, lossfn)
+    if hooks:
+        hooks.corners = orc.corners
     out = []            # pending in hand-out order
     ops = []
     stop = False
@@ -440,6 +483,7 @@ class LNDHooks:
 
     def __init__(self):
         self.pid = {}
+        self.corners = []
         self.steps = []
         self.rnd = {}
         self.cur = None
@@ -551,7 +595,7 @@ class LNDHooks:
     # -- one operation -------------------------------------------------------
     def begin(self, l, op):
         if not self.pid:
-            for c in l._bounds_points:
+            for c in self.corners:
                 self.id_of(c)
         self.cur = {"tris": [], "pis": {}, "sub": {}, "vol": {}, "svol": {}, "loss": {}, "rescale": False,
                     "choose": [], "order": [], "op": op, "n_adds": len(self.rec.adds), "n_locs": len(self.rec.locs),
@@ -571,7 +615,7 @@ class LNDHooks:
         pts.update(k[0] for k in c["pis"])
         inv = {v: k for k, v in self.pid.items()}
         c["inb"] = {}
-        for i in sorted(pts | set(range(len(l._bounds_points)))):
+        for i in sorted(pts | set(range(len(self.corners)))):
             try:
                 c["inb"][i] = bool(l.inside_bounds(inv[i]))
             except Exception:  # noqa: BLE001
